@@ -1,11 +1,353 @@
 (* Model of internal/parser/java_generator.go at the level of the codec IR.
-   Faithful to the code, defects included.  Model only: no proofs here. *)
+   Faithful to the code, defects included.  Model only: no proofs here.
+
+   Conventions specific to Java (see also the header of harness/extract_java.py):
+   * a step is tagged with the position, in the emitted member list, of the member the emitted
+     text NAMES.  The member list declares ToLowerCamel(ToCamel(name)) while most emitters name
+     ToLowerCamel(name): when the two differ the step names a member that does not exist and
+     is tagged 999 (undefined_mark).
+   * a repeated field names two members (the list whose size is written / the list that is
+     initialised, and the list whose elements are read / that is added to).  The IR has one
+     index per step: when the two names do not denote the same declared member the element
+     step is replaced by ENone/DNone (closest form: the prefix is still written/read, a non
+     empty list cannot be encoded/decoded).
+   * element code that is no element codec at all (length placeholder, checksum block,
+     length-of block or match assignment inside the loop) is ENone/DNone as well.
+   * EPatch has no slot for the member the size is stored in ("this.<len> = ..."): when that
+     member is not declared the EPatch step is tagged 999 instead of the target's index.   *)
 From FP Require Export Common.
 Open Scope string_scope.
 Open Scope list_scope.
+Local Open Scope nat_scope.
+
+(* ---- iancoleman/strcase v0.3.0 toCamelInitCase(s, false) = ToLowerCamel, byte by byte.
+   Needed because GetFieldNameLower converts an already converted string
+   (ToLowerCamel(ToCamel(name))), which the m_names table does not hold.  strings.TrimSpace
+   and the acronym table are left out: the argument is a ToCamel result (letters and digits
+   only) and the repository never calls ConfigureAcronym. *)
+Definition asc_between (lo hi : nat) (c : ascii) : bool :=
+  let n := nat_of_ascii c in andb (Nat.leb lo n) (Nat.leb n hi).
+Definition asc_is_cap := asc_between 65 90.
+Definition asc_is_low := asc_between 97 122.
+Definition asc_is_num := asc_between 48 57.
+Definition asc_up (c : ascii) : ascii := ascii_of_nat (nat_of_ascii c - 32).
+Definition asc_lo (c : ascii) : ascii := ascii_of_nat (nat_of_ascii c + 32).
+Definition asc_is_sep (c : ascii) : bool :=
+  let n := nat_of_ascii c in
+  orb (orb (Nat.eqb n 95) (Nat.eqb n 32)) (orb (Nat.eqb n 45) (Nat.eqb n 46)).   (* _ space - . *)
+
+Fixpoint strcase_loop (s : string) (first capNext prevIsCap : bool) : string :=
+  match s with
+  | EmptyString => EmptyString
+  | String v r =>
+      let vcap := asc_is_cap v in
+      let vlow := asc_is_low v in
+      let v' := if capNext then (if vlow then asc_up v else v)
+                else if first then (if vcap then asc_lo v else v)
+                else if andb prevIsCap vcap then asc_lo v else v in
+      if orb vcap vlow then String v' (strcase_loop r false false vcap)
+      else if asc_is_num v then String v' (strcase_loop r false true vcap)
+      else strcase_loop r false (asc_is_sep v) vcap
+  end.
+Definition strcase_lower_camel (s : string) : string := strcase_loop s true false false.
+
+(* ---- javaBasicTypeMap: BasicType, BoxType, Le (a missing key is Go's zero value) ---- *)
+Record jtype := mkJ { j_basic : string; j_box : string; j_le : string }.
+Definition jzero : jtype := mkJ "" "" "".
+Definition java_type (t : string) : jtype :=
+  if str_in t ["u8"; "char"; "i8"] then mkJ "byte" "Byte" "Byte"
+  else if str_in t ["u16"; "i16"] then mkJ "short" "Short" "ShortLE"
+  else if str_in t ["u32"; "i32"] then mkJ "int" "Integer" "IntLE"
+  else if str_in t ["u64"; "i64"] then mkJ "long" "Long" "LongLE"
+  else if String.eqb t "f32" then mkJ "float" "Float" "FloatLE"
+  else if String.eqb t "f64" then mkJ "double" "Double" "DoubleLE"
+  else jzero.
+
+(* what the suffix of a Netty ByteBuf write<S>/read<S>/set<S> method means: width, little-endian *)
+Definition netty (m : string) : nat * bool :=
+  if String.eqb m "Byte" then (1, false)
+  else if String.eqb m "Short" then (2, false) else if String.eqb m "ShortLE" then (2, true)
+  else if String.eqb m "Int" then (4, false) else if String.eqb m "IntLE" then (4, true)
+  else if String.eqb m "Long" then (8, false) else if String.eqb m "LongLE" then (8, true)
+  else if String.eqb m "Float" then (4, false) else if String.eqb m "FloatLE" then (4, true)
+  else if String.eqb m "Double" then (8, false) else if String.eqb m "DoubleLE" then (8, true)
+  else (0, false).
+
+(* width of a Java primitive type named in a cast *)
+Definition prim_w (t : string) : nat :=
+  if String.eqb t "byte" then 1 else if String.eqb t "short" then 2
+  else if str_in t ["int"; "float"] then 4 else if str_in t ["long"; "double"] then 8 else 0.
 
 Section Java.
   Variable M : bmodel.
 
-  Definition gen_java : prog := [].
+  Definition java_pad := padarg_of norm_java M.
+
+  (* "if LittleEndian { typ.Le } else { strcase.ToCamel(typ.BasicType) }" *)
+  Definition meth (t : jtype) : string := if le_of M then j_le t else camel M (j_basic t).
+  (* the empty/null branches always use strcase.ToCamel(typ.BasicType) *)
+  Definition meth_be (t : jtype) : string := camel M (j_basic t).
+
+  (* javaBasicTypeMap[f.GetType()] *)
+  Definition field_jtype (f : field) : jtype :=
+    match field_get_type f with Some t => java_type t | None => jzero end.
+
+  (* GetFieldNameLower: the name a member is declared (and decoded) under *)
+  Definition decl_name (n : string) : string := strcase_lower_camel (camel M n).
+
+  (* position of the member called [x] in the emitted member list *)
+  Definition decl_index (p : packet) (x : string) : option nat :=
+    index_where (fun n' => String.eqb (decl_name n') x) (p_fields p) 0.
+
+  Definition tag_of (o : option nat) : nat := match o with Some i => i | None => undefined_mark end.
+
+  Definition same_member (a b : option nat) : bool :=
+    match a, b with Some x, Some y => Nat.eqb x y | _, _ => false end.
+
+  (* a position variable is named after a field (ToLowerCamel): the member it denotes *)
+  Definition lc_index (p : packet) (n : string) : nat :=
+    match index_where (fun n' => String.eqb (lcamel M n') (lcamel M n)) (p_fields p) 0 with
+    | Some i => i
+    | None => undefined_mark
+    end.
+
+  (* c.RefPacket.Name *)
+  Definition ref_name (f : field) : string :=
+    match f_attr f with
+    | AObj _ _ (Some r) _ => r
+    | AObj _ pn None _ => pn
+    | _ => ""
+    end.
+
+  (* "this.<x>[.get(i)].encode(byteBuf)": which member is named, and what its declared type
+     (GetFieldType) makes of the call *)
+  Definition codec_call (path : string) (p : packet) (x : string) (elem : bool) : option nat * estep :=
+    match decl_index p x with
+    | None => (None, EObj "?")
+    | Some j =>
+        (Some j,
+         match nth_error (p_fields p) j with
+         | Some fj =>
+             match f_attr fj with
+             | AMatch _ _ _ => if elem then ENone "get(i) on a BinaryCodec" else EDyn
+             | AObj _ _ _ _ =>
+                 if Bool.eqb (f_rep fj) elem
+                 then match obj_path path fj with Some ty => EObj ty | None => ENone "unresolved" end
+                 else ENone "List/object confusion"
+             | _ => ENone "encode on a non-codec member"
+             end
+         | None => ENone "unreachable"
+         end)
+    end.
+
+  (* GenerateEncodeField after the LenAttr test, except the length placeholder *)
+  Definition java_enc_simple (path : string) (p : packet) (f : field) (elem : bool) : option nat * estep :=
+    let x := lcamel M (f_name f) in
+    match f_attr f with
+    | ADyn =>
+        let lt := java_type (c_str (m_cfg M)) in
+        let '(pw, ple) := netty (meth lt) in
+        (decl_index p x, EStr pw ple (snd (netty (meth_be lt))))      (* the 0 prefix of an empty string: always the big-endian method *)
+    | AFixed n _ => (decl_index p x, EFixed n (java_pad (f_attr f)))
+    | ABasic _ => let '(w, le) := netty (meth (field_jtype f)) in (decl_index p x, EInt w le)
+    | ACheck alg _ =>
+        let '(w, le) := netty (meth (field_jtype f)) in
+        (decl_index p x, if elem then ENone "invalid element" else ECheck alg w le)
+    | ALen _ _ => (decl_index p x, ENone "invalid element")          (* top level: java_enc_field *)
+    | AObj true _ _ _ => codec_call path p (lcamel M (ref_name f)) elem
+    | AObj false _ _ _ => codec_call path p x elem
+    | AMatch _ _ _ => codec_call path p x elem
+    | ANil => (None, ENone "marker")
+    end.
+
+  (* the variable "<v>Pos" that the encode step of a field declares in the method's scope *)
+  Definition defines_pos (f : field) : option string :=
+    match f_len f with
+    | LTarget => None
+    | _ => if f_rep f then None
+           else match f_attr f with ALen _ _ => Some (lcamel M (f_name f)) | _ => None end
+    end.
+
+  Definition pos_defined_before (p : packet) (i : nat) (v : string) : bool :=
+    existsb (fun f => match defines_pos f with Some v' => String.eqb v' v | None => false end)
+            (firstn i (p_fields p)).
+
+  (* GenerateEncodeField, "if _, ok := f.LenAttr.(*model.LengthFieldAttribute); ok" *)
+  Definition java_enc_target (path : string) (p : packet) (i : nat) (f : field) : list (nat * estep) :=
+    let '(tm, inner) := codec_call path p (lcamel M (f_name f)) false in
+    let ti := tag_of tm in
+    let lt := match len_field_index p with
+              | Some li => match nth_error (p_fields p) li with Some g => field_jtype g | None => jzero end
+              | None => jzero
+              end in
+    let lname := match p_lenf p with Some n => n | None => "" end in
+    let l := lcamel M lname in
+    let '(w, le) := netty (meth lt) in
+    (* "<len>Pos" is declared by the placeholder of a length field named like that, if it came earlier *)
+    let mark := if pos_defined_before p i l then lc_index p lname else undefined_mark in
+    let ptag := match decl_index p l with Some _ => ti | None => undefined_mark end in
+    [(ti, ESpan inner ti); (ptag, EPatch mark ti w le (prim_w (j_basic lt)) None)].
+
+  Definition java_enc_field (path : string) (p : packet) (i : nat) (f : field) : list (nat * estep) :=
+    match f_len f with
+    | LTarget => java_enc_target path p i f
+    | _ =>
+        match f_attr f with
+        | ALen _ _ =>
+            let ti := lc_index p (f_name f) in                          (* "int <field>Pos = byteBuf.writerIndex()" *)
+            let '(w, le) := netty (meth (field_jtype f)) in
+            [(ti, EMarkZero ti w le)]
+        | _ => let '(o, s) := java_enc_simple path p f false in [(tag_of o, s)]
+        end
+    end.
+
+  (* GenerateEncode, "if f.IsRepeat" *)
+  Definition java_enc_list (path : string) (p : packet) (f : field) : list (nat * estep) :=
+    let lt := java_type (c_list (m_cfg M)) in
+    let '(pw, ple) := netty (meth lt) in
+    let ele := snd (netty (meth_be lt)) in                              (* "byteBuf.write<ToCamel(BasicType)>(0)" *)
+    let lm := decl_index p (decl_name (f_name f)) in                    (* this.<GetFieldNameLower>.size() *)
+    let '(em, es) := match f_len f with
+                     | LTarget => (lm, ENone "invalid element")
+                     | _ => java_enc_simple path p f true
+                     end in
+    let el := match es with
+              | ENone _ => es
+              | _ => if same_member lm em then es else ENone "wrong member"
+              end in
+    [(tag_of lm, EList pw ple ele el)].
+
+  Definition java_enc_step (path : string) (p : packet) (i : nat) (f : field) : list (nat * estep) :=
+    if f_rep f then java_enc_list path p f else java_enc_field path p i f.
+
+  (* ---- decode ---- *)
+
+  (* "if (null == this.<x>) { this.<x> = new <cls>(); } this.<x>.decode(byteBuf);" *)
+  Definition java_dec_obj (path : string) (p : packet) (x cls : string) : nat * dstep :=
+    match decl_index p x with
+    | None => (undefined_mark, DNone "undeclared member")
+    | Some j =>
+        (j, match nth_error (p_fields p) j with
+            | Some fj =>
+                match f_attr fj with
+                | AObj _ pn _ _ =>
+                    if andb (negb (f_rep fj)) (String.eqb pn cls)
+                    then match obj_path path fj with Some ty => DObj ty | None => DNone "unresolved" end
+                    else DNone "member initialised with another class"
+                | _ => DNone "member initialised with another class"
+                end
+            | None => DNone "unreachable"
+            end)
+    end.
+
+  (* "<T> <x>_ = new <T>();<x>_.decode(byteBuf);this.<x>.add(<x>_);" *)
+  Definition java_dec_obj_elem (path : string) (p : packet) (x cls : string) : option nat * dstep :=
+    match decl_index p x with
+    | None => (None, DNone "undeclared member")
+    | Some j =>
+        (Some j,
+         match nth_error (p_fields p) j with
+         | Some fj =>
+             match f_attr fj with
+             | AObj _ pn _ _ =>
+                 if andb (f_rep fj) (String.eqb pn cls)
+                 then match obj_path path fj with Some ty => DObj ty | None => DNone "unresolved" end
+                 else DNone "not a list of that class"
+             | _ => DNone "not a list of that class"
+             end
+         | None => DNone "unreachable"
+         end)
+    end.
+
+  (* what the enums called <fac>MessageFactory of this class register, in emission order *)
+  Definition java_regs (p : packet) (fac : string) : list (string * string) :=
+    flat_map (fun f' => match f_attr f' with
+                        | AMatch _ _ pairs =>
+                            if String.eqb (camel M (f_name f')) fac
+                            then map (fun mp => (mp_key mp, mp_value mp)) pairs else []
+                        | _ => []
+                        end) (p_fields p).
+
+  Definition is_match_member (p : packet) (j : nat) : bool :=
+    match nth_error (p_fields p) j with
+    | Some fj => match f_attr fj with AMatch _ _ _ => true | _ => false end
+    | None => false
+    end.
+
+  (* "this.<n> = <Camel>MessageFactory.getInstance().create(this.<key>); this.<n>.decode(byteBuf);" *)
+  Definition java_dec_match (p : packet) (f : field) (key : option string) : nat * dstep :=
+    match decl_index p (decl_name (f_name f)) with
+    | None => (undefined_mark, DNone "unreachable")
+    | Some j =>
+        (j, match key with
+            | None => DNone "unresolved key"
+            | Some k =>
+                match decl_index p (lcamel M k) with
+                | Some ki => if is_match_member p j
+                             then DDispatch (java_regs p (camel M (f_name f))) false ki true
+                             else DNone "not a BinaryCodec member"
+                | None => DNone "unresolved key"
+                end
+            end)
+    end.
+
+  (* GenerateDecodeField, not repeated *)
+  Definition java_dec_field (path : string) (p : packet) (f : field) : nat * dstep :=
+    let n := tag_of (decl_index p (decl_name (f_name f))) in
+    match f_attr f with
+    | ADyn => let '(pw, ple) := netty (meth (java_type (c_str (m_cfg M)))) in (n, DStr pw ple true)
+    | AFixed k _ => (n, DFixed k (java_pad (f_attr f)))
+    | ABasic _ | ALen _ _ | ACheck _ _ => let '(w, le) := netty (meth (field_jtype f)) in (n, DInt w le)
+    | AObj true _ _ _ => java_dec_obj path p (lcamel M (ref_name f)) (f_name f)      (* new <f.Name>() *)
+    | AObj false _ _ _ => java_dec_obj path p (lcamel M (f_name f)) (f_name f)
+    | AMatch key _ _ => java_dec_match p f key
+    | ANil => (undefined_mark, DNone "marker")
+    end.
+
+  (* GenerateDecode, "if f.IsRepeat" *)
+  Definition java_dec_list (path : string) (p : packet) (f : field) : nat * dstep :=
+    let '(pw, ple) := netty (meth (java_type (c_list (m_cfg M)))) in
+    let n := decl_index p (decl_name (f_name f)) in
+    let init := decl_index p (lcamel M (f_name f)) in                   (* this.<ToLowerCamel(f.Name)> = new ArrayList<>() *)
+    let '(am, es) :=
+      match f_attr f with
+      | ADyn => let '(sw, sle) := netty (meth (java_type (c_str (m_cfg M)))) in (n, DStr sw sle true)
+      | AFixed k _ => (n, DFixed k (java_pad (f_attr f)))
+      | ABasic _ | ALen _ _ | ACheck _ _ => let '(w, le) := netty (meth (field_jtype f)) in (n, DInt w le)
+      | AObj true _ _ _ => java_dec_obj_elem path p (lcamel M (ref_name f)) (ref_name f)      (* f.GetType() *)
+      | AObj false _ _ _ => java_dec_obj_elem path p (lcamel M (f_name f)) (ref_name f)
+      | AMatch _ _ _ => (n, DNone "invalid element")
+      | ANil => (init, DNone "marker")
+      end in
+    let el := match es with
+              | DNone _ => es
+              | _ => if same_member init am then es else DNone "wrong member"
+              end in
+    (tag_of am, DList pw ple true el).
+
+  Definition java_dec_step (path : string) (p : packet) (f : field) : nat * dstep :=
+    if f_rep f then java_dec_list path p f else java_dec_field path p f.
+
+  Fixpoint number {A} (i : nat) (l : list A) : list (nat * A) :=
+    match l with [] => [] | x :: r => (i, x) :: number (S i) r end.
+
+  Definition java_ir (path : string) (p : packet) : pkt_ir :=
+    let fs := number 0 (p_fields p) in
+    mkPkt (length (p_fields p))
+          (flat_map (fun '(i, f) => java_enc_step path p i f) fs)
+          (map (fun '(_, f) => java_dec_step path p f) fs).
+
+  (* GenerateJavaClassFileForPacket: inline packets are static nested classes of their packet *)
+  Fixpoint java_packet (path : string) (p : packet) {struct p} : prog :=
+    match p with
+    | mkPacket _ _ _ fs _ =>
+        (fix inl (fs : list field) : prog :=
+           match fs with
+           | [] => []
+           | mkField fname (AObj true _ _ (Some q)) _ _ :: r => java_packet (path_join path fname) q ++ inl r
+           | _ :: r => inl r
+           end) fs ++ [(path, java_ir path p)]
+    end.
+
+  Definition gen_java : prog := flat_map (fun p => java_packet (p_name p) p) (m_packets M).
 End Java.
